@@ -9,7 +9,7 @@ use std::cmp::Ordering;
 use std::collections::hash_map::DefaultHasher;
 use std::hash::{Hash, Hasher};
 
-kinds!(K { Cross = "date-then-timestamp-with-equal-raw-number", Pair = "date-time-pair", Tm = "time-usecs", TmOut = "time-usecs-out-of-range", Hms = "hms-tuple", OrdTs = "order-timestamps", OrdTm = "order-times" });
+kinds!(K { OrdM = "Ord::max/min/clamp", Cross = "date-then-timestamp-with-equal-raw-number", Pair = "date-time-pair", Tm = "time-usecs", TmOut = "time-usecs-out-of-range", Hms = "hms-tuple", OrdTs = "order-timestamps", OrdTm = "order-times" });
 pub type C = G<K>;
 impl Case for C {
     fn to_json(&self) -> Value {
@@ -34,6 +34,32 @@ fn second_ok(x: Option<f64>, s: u32, us: u32) -> bool {
 
 pub fn check(st: &mut Stats, c: &C) {
     match c.k {
+        K::OrdM => {
+            // the provided methods of Ord must agree with cmp: max/min return one of the operands, clamp the value or a bound
+            let (x, y, z) = (c.a, c.b, c.c);
+            st.op(Op::TS_cmp);
+            if (TS_MIN..=TS_MAX).contains(&x) && (TS_MIN..=TS_MAX).contains(&y) && (TS_MIN..=TS_MAX).contains(&z) {
+                let (a, b, v) = (Timestamp::try_from_usecs(x).expect("ts"), Timestamp::try_from_usecs(y).expect("ts"), Timestamp::try_from_usecs(z).expect("ts"));
+                let (lo, hi) = if x <= y { (a, b) } else { (b, a) };
+                if a.max(b).usecs() != x.max(y) || a.min(b).usecs() != x.min(y) || std::cmp::max(a, b).usecs() != x.max(y) || v.clamp(lo, hi).usecs() != z.clamp(x.min(y), x.max(y)) {
+                    st.fail("C07/order/timestamp-max-min-clamp", format!("{} {} {}", x, y, z));
+                }
+            }
+            let (tx, ty, tz) = (x.rem_euclid(DAY_US), y.rem_euclid(DAY_US), z.rem_euclid(DAY_US));
+            let (a, b, v) = (Time::try_from_usecs(tx).expect("time"), Time::try_from_usecs(ty).expect("time"), Time::try_from_usecs(tz).expect("time"));
+            let (lo, hi) = if tx <= ty { (a, b) } else { (b, a) };
+            st.op(Op::T_cmp);
+            if a.max(b).usecs() != tx.max(ty) || a.min(b).usecs() != tx.min(ty) || v.clamp(lo, hi).usecs() != tz.clamp(tx.min(ty), tx.max(ty)) {
+                st.fail("C07/order/time-max-min-clamp", format!("{} {} {}", tx, ty, tz));
+            }
+            let (dx, dy, dz) = (x.div_euclid(DAY_US).clamp(MIN_DAY as i64, MAX_DAY as i64) as i32, y.div_euclid(DAY_US).clamp(MIN_DAY as i64, MAX_DAY as i64) as i32, z.div_euclid(DAY_US).clamp(MIN_DAY as i64, MAX_DAY as i64) as i32);
+            let (a, b, v) = (Date::try_from_days(dx).expect("date"), Date::try_from_days(dy).expect("date"), Date::try_from_days(dz).expect("date"));
+            let (lo, hi) = if dx <= dy { (a, b) } else { (b, a) };
+            st.op(Op::D_cmp);
+            if a.max(b).days() != dx.max(dy) || a.min(b).days() != dx.min(dy) || v.clamp(lo, hi).days() != dz.clamp(dx.min(dy), dx.max(dy)) {
+                st.fail("C07/order/date-max-min-clamp", format!("{} {} {}", dx, dy, dz));
+            }
+        }
         K::Cross => {
             // history monitor: accessors of a Date (day number n) and of a Timestamp whose microsecond count is the same
             // number n, called back to back in both orders; each must report its own fields
@@ -326,6 +352,21 @@ pub fn run(ctx: &Ctx, st: &mut Stats) {
         }
     }
     cold_threads(st, "history: first call on a fresh thread", cold_list(), check);
+    let nom = ctx.tier.pick(300, 600_000, 6_000_000);
+    ctx.par(st, "order: Ord::max / min / clamp on timestamps, times and dates (near, far, across the epoch)", false, 0, nom, |st, _, rng| {
+        let x = rng.range_i64(TS_MIN, TS_MAX);
+        let mk = |rng: &mut Rng| match rng.below(5) {
+            0 => rng.range_i64(TS_MIN, TS_MAX),
+            1 => x + rng.range_i64(-3, 3),
+            2 => x + rng.range_i64(-(1i64 << 40), 1i64 << 40),
+            3 => -x,
+            _ => rng.range_i64(-(1i64 << 33), 1i64 << 33),
+        };
+        let (y, z) = (mk(rng).clamp(TS_MIN, TS_MAX), mk(rng).clamp(TS_MIN, TS_MAX));
+        let x = if rng.chance(1, 4) { rng.range_i64(-(1i64 << 33), 1i64 << 33) } else { x };
+        let c = C::abc(K::OrdM, x, y, z);
+        st.eval_h(c.hash(40), &c, check);
+    });
     let nr = ctx.tier.pick(2_000, 2_000_000, ctx.big(40_000_000, 300_000_000));
     ctx.par(st, "dates x random-times", false, 0, nr, |st, _, rng| {
         let n = rng.range_i64(MIN_DAY as i64, MAX_DAY as i64);
